@@ -208,6 +208,10 @@ type stashRefConst struct {
 }
 
 func (r *stashRefConst) set(v Value) {
+	if (*r.v)[r.idx] == nil {
+		// in the temporal dead zone: ReferenceError takes precedence
+		panic(errAccessBeforeInit)
+	}
 	if r.strictConst {
 		panic(errAssignToConst)
 	}
